@@ -36,7 +36,12 @@ def render(e, need=0):
             s = "(" + s + ")"
         s += "..."
     elif k == "sub":
-        s = "".join(render(c, 4) for c in e[1])
+        # the last literal of a word may carry its description without parentheses: `--size=(1|2)k "descr"`
+        last = e[1][-1]
+        if last[0] == "lit" and last[2] is not None:
+            s = "".join(render(c, 4) for c in e[1][:-1]) + render(last, 0)
+        else:
+            s = "".join(render(c, 4) for c in e[1])
     elif k == "dd":
         s = "(" + render(e[1], 0) + ") " + gram.descr(e[2])
         return s if need <= 3 else "(" + s + ")"
@@ -113,6 +118,9 @@ class Gen:
             tail = ("cmd", self.rng.choice(self.cmd_texts))
         else:
             tail = ("nt", self.rng.choice(self.undefined or ["U"]))
+        if tail[0] == "alt" and self.rng.random() < 0.25:
+            # a unit suffix that carries the description of the whole option
+            return ("sub", [head, tail, ("lit", self.rng.choice(["k", "ms", "%"]), self.rng.choice(DESCRS))])
         return ("sub", [head, tail])
 
     def expr(self, depth=0):
